@@ -114,3 +114,52 @@ def _ops(rv):
     if k == "agg":
         return rv[2]
     return []
+
+
+def parse_bytes_const(disp):
+    """`const b"..."` display -> bytes (Rust byte-string escapes)."""
+    d = disp.strip()
+    if not (d.startswith('const b"') and d.endswith('"')):
+        return None
+    body = d[8:-1]
+    out = bytearray()
+    i = 0
+    while i < len(body):
+        c = body[i]
+        if c == "\\" and i + 1 < len(body):
+            n = body[i + 1]
+            if n == "x":
+                out.append(int(body[i + 2:i + 4], 16))
+                i += 4
+                continue
+            out.append({"n": 10, "r": 13, "t": 9, "0": 0, "\\": 92, '"': 34, "'": 39}.get(n, ord(n)))
+            i += 2
+            continue
+        out += c.encode("utf-8")
+        i += 1
+    return bytes(out)
+
+
+def format_templates(b):
+    """All fmt templates used in a body: list of (line, parts) with parts as cfg.fmt_template gives."""
+    from .cfg import fmt_template
+    out = []
+    for i, j, pl, rv, line, exp in b.stmts():
+        for o in _ops(rv):
+            if o[0] == "k" and o[1].startswith('const b"'):
+                bs = parse_bytes_const(o[1])
+                if bs is not None:
+                    t = fmt_template(bs.hex())
+                    if t is not None:
+                        out.append((line, t))
+    for c in b.calls():
+        for a in c.args:
+            if a[0] == "k" and a[1].startswith('const b"'):
+                bs = parse_bytes_const(a[1])
+                if bs is not None:
+                    t = fmt_template(bs.hex())
+                    if t is not None:
+                        out.append((c.line, t))
+            elif a[0] == "k" and a[1].startswith('const "') and c.path.endswith("from_str"):
+                out.append((c.line, [("lit", a[1][7:-1])]))
+    return out
